@@ -2,6 +2,8 @@ package main
 
 import (
 	"fmt"
+	"os"
+	"runtime/debug"
 	"go/ast"
 	"go/types"
 	"strings"
@@ -112,6 +114,7 @@ type FnCtx struct {
 	localTypes map[string]types.Type
 	inPattern bool
 	qcount int
+	hiddenNames map[string]bool
 	callOrd map[*ast.CallExpr]int
 	stmtAssertHit map[*Clause]bool
 	globalFacts []string
@@ -124,6 +127,9 @@ type FnCtx struct {
 type unsupported struct{ msg string }
 
 func (fx *FnCtx) fail(format string, a ...any) {
+	if os.Getenv("GOVC_DEBUG") != "" {
+		debug.PrintStack()
+	}
 	panic(unsupported{fmt.Sprintf(format, a...)})
 }
 
